@@ -14,7 +14,7 @@ import (
 
 func (g *Gen) newFnCtx(fn *ssa.Function, sp *FuncSpec) *FnCtx {
 	fc := &FnCtx{g: g, fn: fn, spec: sp, declared: map[string]string{}, sorts: map[string]string{}, assumpt: map[string]bool{},
-		locals: map[*ssa.Alloc]bool{}, callOrd: map[string]int{}, closures: map[ssa.Value]*ssa.MakeClosure{}, propFlags: map[int][]propFlag{}, tolFlags: map[int][]propFlag{}, onlyFlags: map[int][]propFlag{}, ground: map[string]bool{}, localMaps: map[string]bool{}, refArr: map[string]bool{},
+		locals: map[*ssa.Alloc]bool{}, callOrd: map[string]int{}, closures: map[ssa.Value]*ssa.MakeClosure{}, propFlags: map[int][]propFlag{}, tolFlags: map[int][]propFlag{}, folA: map[int][]propFlag{}, folB: map[int][]propFlag{}, onlyFlags: map[int][]propFlag{}, ground: map[string]bool{}, localMaps: map[string]bool{}, refArr: map[string]bool{},
 		modMemo: map[*ssa.Function]*ModSet{}, modBusy: map[*ssa.Function]bool{}}
 	if sp.Mode == "bv" {
 		fc.m = M{ModeBV}
@@ -367,6 +367,30 @@ func (g *Gen) verifyFunction(fn *ssa.Function, sp *FuncSpec) *FnCtx {
 			o := &Oblig{Name: fmt.Sprintf("%s/failsonly#%d", sp.Name, c.Ord), Kind: "failsonly", Tags: c.Tags, goal: goal, Text: "failsonly " + c.Text, Spec: c}
 			fc.addObligAt(o, r.block, r.seq)
 		}
+		// follows: after A returned with E, B is called before a successful return
+		for _, c := range sp.Follows {
+			var fa, fb []string
+			for _, p := range fc.folA[c.Ord] {
+				fa = append(fa, p.cond)
+			}
+			for _, p := range fc.folB[c.Ord] {
+				fb = append(fb, p.cond)
+			}
+			if len(fa) == 0 {
+				fc.errs = append(fc.errs, fmt.Sprintf("%s: follows %q: %s is not called", sp.Name, c.Text, c.Args[1]))
+				continue
+			}
+			ok := "true"
+			for i := len(r.res) - 1; i >= 0; i-- {
+				if kindOf(r.res[i].T) == KIface && i < len(rnames) {
+					ok = sEq(r.res[i].Sub[0].S, "0") // the function's error result is nil
+					break
+				}
+			}
+			goal := sImp(sAnd(r.guard, ok, sOr(fa...)), sOr(fb...))
+			o := &Oblig{Name: fmt.Sprintf("%s/follows#%d", sp.Name, c.Ord), Kind: "follows", Tags: c.Tags, goal: goal, Text: "follows " + c.Text, Spec: c}
+			fc.addObligAt(o, r.block, r.seq)
+		}
 		// tolerated error values: once a listed callee has returned the value, this activation does not return it
 		for _, c := range sp.Tols {
 			rv, ok := renv.names[c.Args[0]]
@@ -534,7 +558,7 @@ func (sp *FuncSpec) allTags() []string {
 	for _, t := range sp.Tags {
 		set[t] = true
 	}
-	for _, cs := range [][]*Clause{sp.Requires, sp.Ensures, sp.Invs, sp.Asserts, sp.Props, sp.Tols, sp.Only, sp.Steps, sp.Early, sp.NoBreak} {
+	for _, cs := range [][]*Clause{sp.Requires, sp.Ensures, sp.Invs, sp.Asserts, sp.Props, sp.Tols, sp.Only, sp.Steps, sp.Early, sp.NoBreak, sp.Follows} {
 		for _, c := range cs {
 			for _, t := range c.Tags {
 				set[t] = true
